@@ -215,11 +215,11 @@ def run(ck):
              "than the preceding video) pushed through flv.NewMuxer into flv.Writer, either straight or as a client joining at a "
              "random media tag with restamped configuration tags; full byte stream compared with the extracted model modulo the "
              "20-byte wall-clock creation date; oracle = independent FLV/AMF0 reader + faithfulness checks on the implementation's "
-             "bytes; a separate malformed stream (empty payloads, SPS shorter than 4 bytes); D17 witnesses; float64(int) and AMF0 "
+             "bytes; a separate malformed stream (empty payloads, SPS shorter than 4 bytes / missing PPS or VPS: frames dropped, nothing written); D17 witnesses; float64(int) and AMF0 "
              "script data against Go directly. non-trivial = at least three media tags reach the client",
         trusted=["H.265: the 21 general hvcC bytes (profile/tier/level, chroma, bit depths, sub-layers) are taken from the "
                  "implementation's own VPS/SPS decoder (oracle input); reserved bits, lengthSizeMinusOne and the three arrays are checked",
-                 "the muxer goroutine is driven to quiescence by a sentinel frame / its panic log line",
+                 "the muxer goroutine is observed to quiescence through the verifhook schedule point worker.pop (id 2) / its panic log line",
                  "creation date string: any string accepted (wall clock)"],
         assumptions=["NAL payload < 2^24-9 bytes (FLV DataSize is 24 bits)", "SPS/PPS/VPS < 65536 bytes; H.264 SPS >= 4 bytes",
                      "|decode time - client's first media tag| < 2^31 ms (24.8 days) for the rebased timestamp to be exact",
